@@ -31,7 +31,10 @@ func checkStackPrimitives(r *Run) {
 		// the statements that change the visitor stack: `s.F = append(s.F, …)` in Enter, `s.F = s.F[…]` in Exit, for a slice
 		// field F of the context (the stack may be one slice of entries or parallel slices)
 		var changes []*ast.AssignStmt
-		ast.Inspect(fd.Body, func(x ast.Node) bool {
+		// helper methods of the stack's own type are read in place (`s.listeners.push(v)`)
+		inl := inlineFuncWith(fp, fd, 2, true)
+		body := inl.Body
+		ast.Inspect(body, func(x ast.Node) bool {
 			as, ok := x.(*ast.AssignStmt)
 			if !ok || len(as.Lhs) != len(as.Rhs) {
 				return true
@@ -41,7 +44,7 @@ func checkStackPrimitives(r *Run) {
 				if !ok {
 					continue
 				}
-				if id, ok := ast.Unparen(sel.X).(*ast.Ident); !ok || info.Uses[id] != recv {
+				if id := rootIdent(sel.X); id == nil || info.Uses[id] != recv {
 					continue
 				}
 				if _, isSlice := info.TypeOf(sel).Underlying().(*types.Slice); !isSlice {
@@ -72,7 +75,7 @@ func checkStackPrimitives(r *Run) {
 		first := changes[0]
 		conditional := false
 		for _, ch := range changes {
-			if len(pathConditions(fd.Body, ch)) > 0 {
+			if len(pathConditions(body, ch)) > 0 {
 				conditional = true
 			}
 			if ch.Pos() < first.Pos() {
@@ -80,7 +83,7 @@ func checkStackPrimitives(r *Run) {
 			}
 		}
 		var earlyReturn token.Pos
-		ast.Inspect(fd.Body, func(x ast.Node) bool {
+		ast.Inspect(body, func(x ast.Node) bool {
 			if rs, ok := x.(*ast.ReturnStmt); ok && earlyReturn == token.NoPos {
 				for _, ch := range changes {
 					if rs.Pos() < ch.Pos() {
